@@ -2,6 +2,7 @@ package main
 
 import (
 	"fmt"
+	"unicode/utf8"
 
 	"verif/mc"
 	"verif/ref/qr"
@@ -168,7 +169,11 @@ func decodeImage(img *gozxing.BitMatrix) (r read) {
 
 func short(s string) string {
 	if len(s) > 48 {
-		return fmt.Sprintf("%+q...(%d bytes)", s[:40], len(s))
+		cut := 40
+		for cut > 0 && !utf8.RuneStart(s[cut]) {
+			cut--
+		}
+		return fmt.Sprintf("%+q...", s[:cut])
 	}
 	return fmt.Sprintf("%+q", s)
 }
